@@ -62,7 +62,7 @@ def run(v, tier, seed):
 
     def explore(iters, nt, nops, ntraces):
         rep = W("ex.ndjson"); tr = W("trace.ndjson")
-        code, out, err = vlib.run([rc_bin, "explore", str(iters), str(nt), str(nops), str(seed), rep, tr, str(ntraces)], timeout=(400 if tier == "quick" else 2400))
+        code, out, err = vlib.run([rc_bin, "explore", str(iters), str(nt), str(nops), str(seed), rep, tr, str(ntraces)], timeout=(1200 if tier == "quick" else 3400))
         if code in (66, 67) or "ERROR: AddressSanitizer" in err or "runtime error:" in err:
             return None, err
         if code != 0: raise vlib.MachineryError("rc explore failed rc=%s: %s %s" % (code, out[-300:], err[-1500:]))
